@@ -52,7 +52,7 @@ def gen_cases(tier, seed):
     cases += [{"kind": "values", "table": t} for t in ["validators", "enforcers", "parameters", "form_parameters", "pydantic", "inputfile"]]
     n = 140 if tier == "quick" else 2100
     for i in range(n):
-        cases.append({"kind": "stateless", "target": ["inputfile", "inputvalidation", "parameter", "formparameter", "enforcerpool", "validators", "inputvalidation_oneof"][i % 7], "length": 8 + (i % 5) * 3 if tier == "quick" else 10 + (i % 5) * 5})
+        cases.append({"kind": "stateless", "target": ["inputfile", "inputvalidation", "parameter", "formparameter", "enforcerpool", "validators", "inputvalidation_oneof", "cross_forms"][i % 8], "length": 8 + (i % 5) * 3 if tier == "quick" else 10 + (i % 5) * 5})
     return cases
 
 
@@ -513,7 +513,7 @@ def form_snapshot(ui):
 def do_stateless(case, rec, rng, d):
     s = scene(d)
     try:
-        {"inputfile": st_inputfile, "inputvalidation": st_inputvalidation, "inputvalidation_oneof": st_oneof, "parameter": st_parameter, "formparameter": st_formparameter, "enforcerpool": st_enforcerpool, "validators": st_validators}[case["target"]](case, rec, rng, s)
+        {"inputfile": st_inputfile, "inputvalidation": st_inputvalidation, "inputvalidation_oneof": st_oneof, "parameter": st_parameter, "formparameter": st_formparameter, "enforcerpool": st_enforcerpool, "validators": st_validators, "cross_forms": st_cross_forms}[case["target"]](case, rec, rng, s)
     finally:
         s["ws"].close()
         s["ws2"].close()
@@ -687,6 +687,63 @@ def st_formparameter(case, rec, rng, s):
         if lv[0] == "reject":
             rec.check("C15.rejected-mutates", canon(long_.form()) == before, op="FormParameter.value", cls=type(long_).__name__, attr="value", detail=f"rejected {val!r} changed the form: {short(before)} -> {short(canon(long_.form()))}")
     rec.sample = {"target": type(long_).__name__, "sequence": seq[:10]}
+
+
+def st_cross_forms(case, rec, rng, s):
+    """The verdict of a brand-new validator built from a brand-new form does not depend on which other forms this process has
+    validated before (multi-select, optional / disabled forms of another application)."""
+    from geoh5py.shared.exceptions import BaseValidationError
+    from geoh5py.ui_json import InputFile, templates
+    from geoh5py.ui_json.constants import default_ui_json
+    from geoh5py.ui_json.validation import InputValidation
+
+    ws = s["ws"]
+
+    def forms():
+        return {"single object": {"geoh5": ws, "target": templates.object_parameter(label="Target")},
+                "single data": {"geoh5": ws, "obj": templates.object_parameter(label="O", value=str(s["A"].uid)), "target": templates.data_parameter(label="D", parent="obj")},
+                "required float": {"geoh5": ws, "target": templates.float_parameter(label="F")}}
+
+    def fresh_verdict(which, value):
+        v = InputValidation(ui_json=forms()[which])
+        data = {"geoh5": ws, "target": value}
+        if which == "single data":
+            data["obj"] = s["A"]
+        try:
+            v.validate_data(data)
+        except BaseValidationError as err:
+            return "reject:" + type(err).__name__
+        except Exception as err:  # noqa: BLE001
+            return "reject:" + type(err).__name__
+        return "accept"
+
+    probes = [("single object", [1, 2], False), ("single object", s["A"].uid, True), ("single object", None, False), ("single data", [1, 2], False), ("single data", s["a1"].uid, True), ("required float", None, False), ("required float", 1.5, True)]
+    seq = []
+    for round_ in range(2 + case["length"] // 8):
+        for which, value, valid in probes:
+            got = fresh_verdict(which, value)
+            rec.check("C15.stateful", (got == "accept") == valid, op="fresh-validator", cls="InputValidation", attr=f"{which}:after-{round_}-other-apps",
+                      detail=f"a brand-new validator for a {which} form judges {short(canon(value))} as {got} (expected {'accept' if valid else 'reject'}) after {round_} unrelated ui.json were processed in this process")
+        types_ = [getattr(t, "__name__", str(t)) for t in InputValidation.infer_validations(forms()["single object"])["target"]["types"]]
+        rec.check("C15.stateful", sorted(types_) == ["Entity", "UUID", "str"], op="declared-types", cls="InputValidation", attr="single object", detail=f"declared types of a single-select object form are {types_} after {round_} unrelated ui.json")
+        # an unrelated application: multi-select object / data forms, optional disabled forms
+        other = deepcopy_ui(dict(default_ui_json))
+        other["geoh5"] = ws
+        other["title"] = "other app"
+        other["many"] = templates.object_parameter(label="many", multi_select=True, value=[str(s["A"].uid)])
+        other["channel"] = templates.data_parameter(label="ch", parent="many", optional="disabled")
+        other["opt"] = templates.float_parameter(label="f", optional="disabled")
+        try:
+            _ = InputFile(ui_json=other).data
+        except Exception as exc:  # noqa: BLE001
+            from ..core import exc_origin as _eo
+
+            if not _eo(exc)[0]:
+                raise
+            rec.see("other-app-rejected:" + type(exc).__name__)
+        seq.append("other-app")
+        rec.see("cross-form-rounds")
+    rec.sample = {"target": "cross_forms", "sequence": seq[:10]}
 
 
 def st_enforcerpool(case, rec, rng, s):
